@@ -931,6 +931,10 @@ class Tract:
             # Pull the preprocessed text from the parser.
             self.pp_desc = parser.text
 
+            # Remember which flags this parse generated, so that parsing
+            # again replaces them instead of adding to them.
+            self._flags_from_parse = parser.flags_from_parse
+
         return parser.lots + parser.qqs
 
     def preprocess(self, clean_qq=None, commit=False) -> str:
